@@ -20,7 +20,7 @@ ASSUMPTIONS = [
     "independent table: 1 Bohr = 0.529177210903 A, 1 pm = 0.01 A, 1 nm = 10 A, 1 fm = 1e-5 A",
 ]
 REQUIRED = {"roundtrip.CartesianGeometry": 50, "roundtrip.Structure": 50, "roundtrip.Molecule": 50,
-            "roundtrip.ConformerEnsemble": 50, "units.xyz": 300, "units.mol2": 200, "units.members": 7, "bundled": 2,
+            "roundtrip.ConformerEnsemble": 50, "units.xyz": 300, "units.mol2": 200, "units.members": 7, "bundled": 2, "multi.files": 40,
             "zero-atoms": 3}
 CHUNK_TIMEOUT = 600
 TECHNIQUE = "runtime monitoring: xyz write/read round-trip oracle + unit-conversion differential oracle (independent table)"
@@ -37,6 +37,7 @@ def plan(tier, seed):
     per = 20 if tier == "quick" else 90
     specs = [{"kind": "rt", "chunk": i, "n": per, "cls": ["CartesianGeometry", "Structure", "Molecule", "ConformerEnsemble"][i % 4]}
              for i in range(n)]
+    specs += [{"kind": "multi", "chunk": i, "n": 10 if tier == "quick" else 40} for i in range(8 if tier == "quick" else 32)]
     nu = 8 if tier == "quick" else 64
     specs += [{"kind": "units", "chunk": i, "n": 6 if tier == "quick" else 30} for i in range(nu)]
     specs.append({"kind": "bundled"})
@@ -44,7 +45,7 @@ def plan(tier, seed):
 
 
 def run_chunk(spec, ctx):
-    {"rt": run_rt, "units": run_units, "bundled": run_bundled}[spec["kind"]](spec, ctx)
+    {"rt": run_rt, "units": run_units, "bundled": run_bundled, "multi": run_multi}[spec["kind"]](spec, ctx)
 
 
 def rand_coords(rng, n):
@@ -197,6 +198,45 @@ def run_rt(spec, ctx):
                 for i, fr in enumerate(frames):
                     if not compare_geom(ctx, case, f"{kls.__name__}:loads_all_xyz:frame", els, fr, ys[i]):
                         break
+
+
+def run_multi(spec, ctx):
+    """one xyz text holding several DIFFERENT geometries (equal and unequal atom counts, different elements)"""
+    import io
+    import molli as ml
+
+    for j in range(spec["n"]):
+        case = ("multi", spec["chunk"], j)
+        if not ctx.want(case):
+            continue
+        rng = ctx.rng(*case)
+        k = rng.randrange(2, 6)
+        same_size = rng.random() < 0.7
+        n0 = rng.choice([1, 2, 3, 5, 9])
+        geoms = [make_geometry(rng, "CartesianGeometry", n=n0 if same_size else rng.choice([1, 2, 3, 5, 9])) for _ in range(k)]
+        text = "".join(g.dumps_xyz() for g in geoms)
+        p = ctx.tmp / f"multi{j}.xyz"
+        p.write_text(text)
+        ctx.count("multi.files")
+        ctx.case(case, dkey=text, nontrivial=True, sample={"frames": k, "atoms": [g.n_atoms for g in geoms], "same_size": same_size})
+        for kls in (ml.CartesianGeometry, ml.Structure, ml.Molecule):
+            for rname, fn in (("loads_all_xyz", lambda: kls.loads_all_xyz(text)), ("load_all_xyz-path", lambda: kls.load_all_xyz(p)),
+                              ("load_all_xyz-stream", lambda: kls.load_all_xyz(io.StringIO(text))),
+                              ("yield_from_xyz", lambda: list(kls.yield_from_xyz(io.StringIO(text))))):
+                try:
+                    ys = fn()
+                except Exception as e:  # noqa
+                    ctx.violation(f"{kls.__name__}:{rname}:own-multi-geometry-text-rejected:{type(e).__name__}", case=case, err=repr(e)[:200])
+                    continue
+                if len(ys) != k:
+                    ctx.violation(f"{kls.__name__}:{rname}:frame-count-differs", case=case, want=k, got=len(ys))
+                    continue
+                for g, y in zip(geoms, ys):
+                    if not compare_geom(ctx, case, f"{kls.__name__}:{rname}:frame", [int(a.element) for a in g.atoms], g.coords, y):
+                        break
+            # the single-geometry readers return the FIRST geometry
+            y0 = kls.loads_xyz(text)
+            compare_geom(ctx, case, f"{kls.__name__}:loads_xyz:first-frame", [int(a.element) for a in geoms[0].atoms], geoms[0].coords, y0)
 
 
 # ------------------------------------------------------------------------------------------------
